@@ -672,10 +672,19 @@ fn op_hide_reveal(c: &Value, ev: &mut Map<String, Value>) -> Result<(), String> 
     let rv = rv_from(&c["rv"])?;
     let lp = json_bytes(&c["lp"])?;
     let ap = json_fixed::<16>(&c["ap"])?;
+    let between: Option<(AVP, Vec<u8>, types::RandomVector)> = if c["between"].is_null() {
+        None
+    } else {
+        Some((avp_from_json(&c["between"]["v"])?, json_bytes(&c["between"]["secret"])?, rv_from(&c["between"]["rv"])?))
+    };
     let o = guarded(|| {
         let mut out: Vec<(&str, Value)> = Vec::new();
         let h = a.clone().hide(&secret, &rv, &lp, &ap);
         out.push(("h", avp_to_json(&h)));
+        // optionally an unrelated hide between hiding and revealing (results must not depend on it)
+        if let Some(b) = between.as_ref() {
+            let _ = b.0.clone().hide(&b.1, &b.2, &[], &ap);
+        }
         let r1 = h.clone().reveal(&secret, &rv);
         out.push(("r1", reveal_json(&r1)));
         out.push(("eq1", json!(r1.as_ref().ok() == Some(&a))));
